@@ -185,7 +185,17 @@ ErrStmts == [
                          SExpr(ECall(EProp(Q, <<109>>), <<I(1)>>))>>,
   ThisRedeclared   |-> <<SDecl(Q, EObj(<<Pair(EStr(<<109>>), EFunc(<<>>, FALSE, <<SDecl(EVar(N_this), I(1))>>))>>)),
                          SExpr(ECall(EProp(Q, <<109>>), <<>>))>>,
-  PrintCyclic      |-> <<SDecl(Q, EList(<<I(1)>>)), SAssign(EIndex(Q, I(0)), Q), SPrint(Q)>>
+  PrintCyclic      |-> <<SDecl(Q, EList(<<I(1)>>)), SAssign(EIndex(Q, I(0)), Q), SPrint(Q)>>,
+  \* the same literal text at two places: the first evaluation succeeds, the second fails in the slot
+  SameSlotTwice    |-> <<SDecl(Q, EStr(<<97>>)), SPrint(EIStr(<<Lit(<<60>>), SlotP(0, EBin("+", Q, EStr(<<33>>))), Lit(<<62>>)>>)),
+                         SAssign(Q, I(1)),
+                         SDecl(Nm(<<122, 122, 122>>), EIStr(<<Lit(<<60>>), SlotP(0, EBin("+", Q, EStr(<<33>>))), Lit(<<62>>)>>))>>,
+  SameSlotTwiceFn  |-> <<SFn(<<115, 104>>, <<Q>>, FALSE, <<SReturn(EIStr(<<Lit(<<60>>), SlotP(0, EBin("+", Q, EStr(<<33>>))), Lit(<<62>>)>>))>>),
+                         SPrint(ECall(Nm(<<115, 104>>), <<EStr(<<97>>)>>)),
+                         SPrint(EList(<<I(0), EIStr(<<Lit(<<60>>), SlotP(0, EBin("+", Q, EStr(<<33>>))), Lit(<<62>>)>>)>>))>>,
+  \* the same failing expression text at two columns of one line
+  SameExprTwice    |-> <<SDecl(Q, EList(<<I(1), EStr(<<97>>)>>)),
+                         SPrint(EList(<<EBin("+", EIndex(Q, I(0)), I(1)), EBin("+", EIndex(Q, I(1)), I(1))>>))>>
 ]
 
 Prelude ==
